@@ -16,7 +16,8 @@ use qrlew::{
 use serde_json::{json, Value as J};
 use std::sync::Arc;
 
-pub const COLS: [(&str, &str); 16] = [
+pub const COLS: [(&str, &str); 20] = [
+    ("dt", "date"), ("ts", "datetime"), ("bo", "bool"), ("od", "opt-date"),
     ("i", "int-full"), ("j", "int-neg"), ("p", "int-pos"), ("z", "int-zero"), ("m", "int-small"), ("q", "int-min"),
     ("f", "float-full"), ("g", "float-neg"), ("h", "float-zero"), ("u", "float-unit"), ("w", "float-around-zero"),
     ("n", "opt-int"), ("o", "opt-float"), ("s", "text"), ("k", "int-130-values"), ("e", "int-two-points"),
@@ -24,6 +25,7 @@ pub const COLS: [(&str, &str); 16] = [
 
 fn col_type(kind: &str) -> DataType {
     match kind {
+        "date" => DataType::date(), "datetime" => DataType::date_time(), "bool" => DataType::boolean(), "opt-date" => DataType::optional(DataType::date()),
         "int-full" => DataType::integer(),
         "int-neg" => DataType::integer_interval(i64::MIN, 0),
         "int-pos" => DataType::integer_interval(0, i64::MAX),
@@ -72,7 +74,12 @@ fn scalar(rng: &mut Rng, depth: u32) -> String {
 
 pub fn gen(rng: &mut Rng, _k: usize, _tier: &str) -> J {
     let d = 1 + rng.below(2) as u32;
-    let sql = match rng.below(9) {
+    let sql = match rng.below(10) {
+        // columns of unrelated types (date, timestamp, boolean against numbers and text) meeting in a set operation, a COALESCE or a CASE
+        9 => { let a = *rng.pick(&["dt", "ts", "bo", "od"]); let b = *rng.pick(&["i", "m", "f", "s", "dt", "bo", "n"]);
+               match rng.below(5) { 0 => format!("SELECT {a} AS r FROM x UNION SELECT {b} AS r FROM x"), 1 => format!("SELECT {a} AS r FROM x UNION ALL SELECT {b} AS r FROM x"),
+                                    2 => format!("SELECT coalesce({a}, {}) AS r FROM x", *rng.pick(&["0", "'x'", "1.5", b])), 3 => format!("SELECT CASE WHEN m > 0 THEN {a} ELSE {b} END AS r FROM x"),
+                                    _ => format!("SELECT m AS r FROM x WHERE coalesce({a}, {b}) = {b}") } }
         8 => { let o = *rng.pick(&["0", "999", "1000", "1001", "5000", "1000000000000000000", "9223372036854775807"]); let l = *rng.pick(&["0", "1", "1000", "1001", "9223372036854775807"]);
                match rng.below(3) { 0 => format!("SELECT m AS r FROM x ORDER BY r LIMIT {l} OFFSET {o}"), 1 => format!("SELECT count(*) AS n FROM (SELECT m AS r FROM x ORDER BY r LIMIT {l} OFFSET {o}) AS q"), _ => format!("SELECT m AS r FROM x ORDER BY r OFFSET {o}") } }
         0 | 1 => format!("SELECT {} AS r FROM x", scalar(rng, d)),
